@@ -128,8 +128,19 @@ def build_replicas(scn, shared_config=None):
 def run_replicas(scn, reps):
     tasks = [r.task for r in reps if r.task is not None and r.setup_error is None]
     names = {t.name for t in tasks}
+    by_name = {r.name: r for r in reps}
+
+    def on_rerun(name):
+        # between two runs the caller extends the very Config object it has been using (Config.add)
+        plan = scn.get("add_after_run")
+        r = by_name.get(name)
+        if plan and r is not None and name in plan["on"] and not getattr(r, "added", False) and r.config is not None:
+            r.config.add(pl.build_config(plan["config"]))
+            r.added = True
+
     sch = Scheduler(
         tasks,
+        on_rerun=on_rerun,
         schedule=scn.get("schedule"),
         abandon=[a for a in scn.get("abandon", []) if a["task"] in names],
         reruns=[n for n in scn.get("reruns", []) if n in names],
@@ -222,7 +233,7 @@ def annotate_expected(scn, arrays, cfg=None):
     tbl = scn["table"]
     cfg = cfg or scn["config"]
     exp = pl.expected_calls(cfg, pl.stream_id_universe(tbl))
-    times = tbl["times"]
+    times = pl.row_times(tbl)
     for e in exp:
         w = cfg["contexts"][e["ctx"]].get("window")
         e["window"] = w
